@@ -37,6 +37,41 @@ fn hash_family(r: &mut Rng, want: usize) -> Vec<String> {
     best
 }
 
+/// names whose characters 3..6 are the hex digits of their own 16-bit hash: for them the 6-character alias form and
+/// the 2-character+hash form are the same string, so one existing alias collides with both forms at once
+fn self_hash_family(r: &mut Rng, want: usize) -> Vec<String> {
+    let p2: String = (0..2).map(|_| (b'A' + r.below(26) as u8) as char).collect();
+    let mut out = vec![];
+    let mut tries = 0u32;
+    let h0 = r.below(65536) as u16;
+    let ext = *r.pick(&["txt", "dat"]);
+    let mut k = 0u32;
+    let step = |mut c: u16, s: &str| -> u16 {
+        for ch in s.chars() {
+            c = (c >> 1).wrapping_add(c << 15).wrapping_add(ch as u16);
+        }
+        c
+    };
+    let pre = step(0, &format!("{}{:04X}-self-", p2, h0));
+    let tail = format!(".{}", ext);
+    let mut digits = String::new();
+    while out.len() < want && tries < 1_500_000 {
+        tries += 1;
+        k += 1;
+        digits.clear();
+        use std::fmt::Write;
+        let _ = write!(digits, "{}", k);
+        if step(step(pre, &digits), &tail) == h0 {
+            out.push(format!("{}{:04X}-self-{}.{}", p2, h0, k, ext));
+        }
+    }
+    // fillers sharing the 6-character prefix (they take ~1..~4 of the numeric-tail form)
+    for i in 0..5 {
+        out.push(format!("{}{:04X}-filler-{}.{}", p2, h0, i, ext));
+    }
+    out
+}
+
 pub struct PopScript {
     pub rng: Rng,
     pub pool: Vec<String>,
@@ -98,6 +133,13 @@ pub fn run(seed: u64, size: usize) -> RunOutcome {
         pool.push(if ext.is_empty() { format!("{} number {:04}", pre, i) } else { format!("{} number {:04}.{}", pre, i, ext) });
     }
     pool.extend(hash_family(&mut r, 14 + size / 4));
+    if r.chance(1, 3) {
+        let fam = self_hash_family(&mut r, 5);
+        // these go first so that they meet in a small directory
+        let mut p2 = fam;
+        p2.extend(pool);
+        pool = p2;
+    }
     for i in 0..size / 4 {
         // short basenames (prefix shorter than 6 / 2), lossy characters, dots and spaces, non-ASCII
         pool.push(match i % 8 {
